@@ -2,8 +2,8 @@
 # tools/allreverts.sh : every `fix:` commit recorded in known_findings.json, reverted on a scratch copy (mutants/reverts/revert_<property>_<commit>.patch),
 # must make the check of its property report a violation again (quick tier; the regression corpus is replayed first). A line with exit!=1 means that
 # a repaired defect could come back unnoticed. (Reverts that no longer applied mechanically were carried over by hand; bb634ac and 42667fd are
-# represented by seeded/C09-surplus-counts-total and mutants/c05_* / c06_* instead. Expected exception: revert_C12_25a1fd4 - since d2b2d6b the pool
-# no longer closes a connection that a request points to, so the HTTP/2-level slip alone has no visible effect any more.)
+# represented by seeded/C09-surplus-counts-total and mutants/c05_* / c06_* instead. revert_C12_25a1fd4 was masked for a while by d2b2d6b; since the histories
+# draw keepalive_expiry it is reported again.)
 cd "$(dirname "$0")/.."
 export VERIF_STALL_S=${VERIF_STALL_S:-40}
 for p in mutants/reverts/*.patch; do
